@@ -38,6 +38,12 @@ Decided structurally (clauses that are necessary for the property; the rendered 
             assignment is judged like a return); the column loop of _TextTableRow.repr may be split into
             `for w, cell in zip(width, self.cells)` + `for w in width[len(self.cells):]`; a cell text that carries colour
             codes (colored(..) / '\\x1b[..') is refuted - len() counts the invisible characters.
+* round 7 - classmethods of _Repr that use `cls` only to name the class are read as the staticmethods they replace
+            (`_classmethods_as_static`, applied to the parsed tree before any rule runs); the join idiom
+            `res = res + '\\n' + line if res else line` (and `sep = '\\n' if res else ''; res += sep + line`) is an append with
+            a conditional line break - with the polarity inverted it is refuted (earlier lines are dropped).
+            Not decided: a memoised index behind the usage table (C20-r73) - whether it is stale depends on who else
+            mutates the shared row list, not on the shape of __repr__.
 * depth   - indentation multiplied by a value read off the printed task alone (`len(task.all_parents)`, a helper that
             only receives the task) is refuted: the level is relative to the printed tasks and only the recursion knows it.
 
@@ -74,7 +80,43 @@ LINK_ONE = 'task._Repr.__get_linked_task_id'
 LINK_MANY = 'task._Repr.__get_linked_tasks_id'
 
 
+def _classmethods_as_static(ctx):
+    """`@classmethod def f(cls, ..)` whose `cls` only names the class (`cls.attr`, `cls.helper(..)`) is the same function as
+    `@staticmethod def f(..)` that writes the class name - as long as the class has no subclass.  The private helpers of
+    `_Repr` are rewritten to that form in the parsed tree (before cfg / flow / call graph look at them), so every rule
+    below sees the parameter lists and call spellings of the static form."""
+    prog = ctx.prog
+    done = []
+    for f in list(prog.all_funcs()):
+        if f.kind != 'classmethod' or f.cls != '_Repr' or not f.qual.startswith('task._Repr.'):
+            continue
+        a = f.node.args
+        if not (a.args and not a.posonlyargs):
+            continue
+        try:
+            if any(c.name != '_Repr' and '_Repr' in [m.name for m in prog.mro(c.name)] for c in prog.classes.values()):
+                continue        # a subclass could bind cls to something else
+        except Exception:
+            continue
+        cname = a.args[0].arg
+        uses = [n for n in ast.walk(f.node) if isinstance(n, ast.Name) and n.id == cname]
+        attr_bases = {id(n.value) for n in ast.walk(f.node) if isinstance(n, ast.Attribute) and isinstance(n.value, ast.Name)}
+        if any(not isinstance(n.ctx, ast.Load) or id(n) not in attr_bases for n in uses):
+            continue            # cls is re-bound, called or passed on: not a plain spelling of the class name
+        for n in uses:
+            n.id = '_Repr'
+        a.args = a.args[1:]
+        for d in f.node.decorator_list:
+            if isinstance(d, ast.Name) and d.id == 'classmethod':
+                d.id = 'staticmethod'
+        f.kind = 'static'
+        done.append(f.name)
+    if done:
+        ctx.assume("classmethods of _Repr that use `cls` only to name the class are read as staticmethods: " + ', '.join(sorted(done)))
+
+
 def check(ctx):
+    _classmethods_as_static(ctx)
     ctx.assume("attribute values reach the table as str (str(), strftime, literals); multi-line texts are out of scope")
     ctx.assume("`fields` is a collection that can be iterated more than once (header and every task row)")
     ctx.assume("term expansion assumes no aliasing writes between a definition and its use inside one function")
@@ -1510,6 +1552,10 @@ def _width(ctx):
                 o.undecided(f, rets[0], rets[0], "join form of text_repr not understood")
             return
         acc = Accumulator(f)
+        if acc.drops is not None:
+            o.refute(f, acc.drops, acc.drops, f"`{src(acc.drops)[:90]}` keeps the text built so far only while it is empty and replaces it "
+                                              f"otherwise: every line but the last is lost")
+            return
         if acc.problem:
             o.undecided(f, f.node, 'text_repr', acc.problem)
             return
@@ -1520,12 +1566,25 @@ def _width(ctx):
             if e is None:
                 return None
             at = cfg.node_of(node) or cfg.node_containing(node)
-            vs = value_set(f, e, at)
-            if any(isinstance(x, ast.Call) and any(x is c for c in calls) for v, _ in vs for x in ast.walk(v)):
+            kinds_ = []
+            for part in (parts_of(e) or [e]):
+                vs = value_set(f, part, at)
+                if any(isinstance(x, ast.Call) and any(x is c for c in calls) for v, _ in vs for x in ast.walk(v)):
+                    kinds_.append('line')
+                elif all(const_str(v) == '\n' for v, _ in vs):
+                    kinds_.append('nl')
+                elif len(vs) == 1 and isinstance(vs[0][0], ast.IfExp) and const_str(vs[0][0].body) is not None \
+                        and const_str(vs[0][0].orelse) is not None and '' in (const_str(vs[0][0].body), const_str(vs[0][0].orelse)):
+                    kinds_.append('nl?')
+                    inline_nl[id(node)] = (vs[0][0], vs[0][1])
+                else:
+                    kinds_.append('other')
+            if kinds_ in (['line'], ['nl']):
+                return kinds_[0]
+            if kinds_ == ['nl?', 'line']:
                 return 'line'
-            if all(const_str(v) == '\n' for v, _ in vs):
-                return 'nl'
             return 'other'
+        inline_nl = {}
         c = Counter(ctx, classify=classify)
         em = c.summary(f, (), {})
         if '!irregular' in em or 'other' in em:
@@ -1552,6 +1611,25 @@ def _width(ctx):
                     o.refute(f, loop, 'separator', f"lines are joined by {acc.sep!r}, expected a line break")
                 continue
             nls = [(cfg.node_of(n) or cfg.node_containing(n), n) for _g, n in c.event_nodes.get('nl', [])]
+            if not nls and id(node) in inline_nl:
+                # the line break is part of the same statement: ('\n' if <res not empty> else '') + line
+                part, pat_ = inline_nl[id(node)]
+                R = acc.name
+                t_ = ex.expand(part.test, pat_ or ln)
+                sepv = const_str(part.body) or const_str(part.orelse)
+                if sepv != '\n':
+                    o.refute(f, node, part, f"lines are joined by {sepv!r}, expected a line break")
+                    continue
+                nonempty = any(match(p, t_) for p in (f"len({R}) > 0", f"len({R}) != 0", f"len({R}) >= 1", f"{R}", f"{R} != ''", f"0 < len({R})"))
+                isempty = any(match(p, t_) for p in (f"len({R}) == 0", f"not {R}", f"{R} == ''", f"0 == len({R})"))
+                if (nonempty and const_str(part.body) == '\n') or (isempty and const_str(part.orelse) == '\n'):
+                    o.site(f, node, f"line break before every row but the first ({src(part.test)})")
+                    o.site(f, node, "separator is a line break")
+                elif (nonempty or isempty):
+                    o.refute(f, node, part, f"the line break is added when `{acc.name}` is still empty and left out afterwards: `{src(part)}`")
+                else:
+                    o.undecided(f, node, part, f"line break `{src(part)}` does not depend on `{acc.name}` being empty")
+                continue
             if not nls:
                 o.refute(f, loop, 'no line break', "rendered rows are appended without a line break between them")
                 continue
